@@ -126,3 +126,76 @@ func genExhaustive(r *rand.Rand, tier string, emit func([]string)) {
 		rec(nil)
 	}
 }
+
+// Clients whose hardware address is not six bytes long (BOOTP hlen 1, 5, 7, 16): the lease table is keyed by the
+// text form of chaddr[:hlen], MACToUint64 takes the first six bytes (0 for shorter addresses), the program always
+// reads chaddr[0..6].  Each such client gets a lease (with and without a circuit-id), the lease ends by expiry +
+// cleanup, RELEASE or DECLINE, and the fast path is probed with the client's own DISCOVER and with another MAC
+// presenting its circuit-id.
+func genHlen(r *rand.Rand, tier string, emit func([]string)) {
+	for _, hl := range []byte{1, 5, 7, 16} {
+		for _, withCid := range []bool{false, true} {
+			for _, end := range []string{"exp", "rel", "dec"} {
+				var ops []string
+				sr := rand.New(rand.NewSource(r.Int63()))
+				inBubble(func() {
+					g := &sgen{r: sr, run: comp{}.NewRun().(*run), lease: 600}
+					defer g.run.Close()
+					m1 := [6]byte{2, 0, 0, 0, 7, hl}
+					var X []byte
+					if withCid {
+						X = []byte(fmt.Sprintf("olt9/0/%d", hl))
+					}
+					mk := func(mac [6]byte, mt byte, want uint32, cid []byte, first bool) fp {
+						p := exhFrame(mac, mt, want, cid, cid != nil && !first, first)
+						if mac == m1 {
+							p.hlen = hl
+							for i := range p.chx {
+								if 6+i < int(hl) {
+									p.chx[i] = byte(0xa0 + i)
+								}
+							}
+							if hl < 6 {
+								for i := int(hl); i < 6; i++ {
+									p.mac[i] = 0 // bytes beyond hlen are padding
+								}
+							}
+						}
+						return p
+					}
+					g.do("new srv 0a000101")
+					g.do("setcfg 0200000000fe 0a000101 2")
+					g.do("addpool 1 0a000100/24 0a000101 08080808 600 0 1")
+					var offer uint32
+					slow := func(p fp) string { return g.do("slow " + hex.EncodeToString(p.bootp())) }
+					if yi, mt := replyInfo(slow(mk(m1, 1, 0, X, false))); mt == 2 {
+						offer = yi
+					}
+					if yi, mt := replyInfo(slow(mk(m1, 3, offer, X, false))); mt == 5 {
+						offer = yi
+					}
+					g.do(runOp(mk(m1, 1, 0, nil, false).frame(), "up100"))
+					switch end {
+					case "exp":
+						g.do("tick 601")
+						g.do("cleanup")
+					case "rel":
+						p := mk(m1, 7, 0, nil, false)
+						p.ciaddr = offer
+						slow(p)
+					case "dec":
+						slow(mk(m1, 4, offer, nil, false))
+					}
+					for _, clk := range []string{"up100", "unix"} {
+						g.do(runOp(mk(m1, 1, 0, nil, false).frame(), clk))
+						if withCid {
+							g.do(runOp(mk([6]byte{2, 0, 0, 0, 0, 9}, 1, 0, X, true).frame(), clk))
+						}
+					}
+					ops = g.ops
+				})
+				emit(ops)
+			}
+		}
+	}
+}
